@@ -13,12 +13,21 @@ import (
 // SNode is a generated schema node. Data is positional: a container body is a slice
 // aligned with Kids.
 type SNode struct {
-	Name    string
-	Kind    string // leaf | cont | list
-	Type    string // leaf: string | int32
-	Default *string
-	NKeys   int
-	Kids    []*SNode
+	Name      string
+	Kind      string // leaf | cont | list | choice
+	Type      string // leaf: string | int32
+	Default   *string
+	NKeys     int
+	Kids      []*SNode
+	Cases     []*SCase // choice: in sorted case-ident order (the order Choice.CaseIdents gives)
+	NonConfig bool     // container / list stated "config false"
+}
+
+// SCase is a case of a choice; Shorthand means it is written as a bare node under the choice.
+type SCase struct {
+	Name      string
+	Kids      []*SNode
+	Shorthand bool
 }
 
 // DNode is data shaped by an SNode.
@@ -26,7 +35,8 @@ type DNode struct {
 	Leaf    *string // leaf: canonical text, nil = unset
 	Present bool    // cont
 	Kids    []*DNode
-	Rows    []*DRow // list
+	Rows    []*DRow    // list
+	Cases   [][]*DNode // choice: one body per case
 }
 
 type DRow struct {
@@ -40,6 +50,7 @@ type Opts struct {
 	Hostile   bool // hostile key alphabet
 	Defaults  bool
 	MultiKeys bool
+	NonConfig bool // some containers / lists are config false
 }
 
 var nameSeq int
@@ -58,9 +69,21 @@ func genKids(r *core.Rng, o Opts, depth int, n int) []*SNode {
 		case k < 5 || depth >= o.MaxDepth:
 			out = append(out, genLeaf(r, o, fmt.Sprintf("f%d", nameSeq)))
 		case k < 7:
-			out = append(out, &SNode{Name: fmt.Sprintf("c%d", nameSeq), Kind: "cont", Kids: genKids(r, o, depth+1, 1+r.Intn(o.MaxKids))})
+			cn := &SNode{Name: fmt.Sprintf("c%d", nameSeq), Kind: "cont"}
+			o2 := o
+			if o.NonConfig && r.Chance(30) {
+				cn.NonConfig = true
+				o2.NonConfig = false // everything below is config false already
+			}
+			cn.Kids = genKids(r, o2, depth+1, 1+r.Intn(o.MaxKids))
+			out = append(out, cn)
 		default:
 			l := &SNode{Name: fmt.Sprintf("l%d", nameSeq), Kind: "list", NKeys: 1}
+			if o.NonConfig && r.Chance(30) {
+				l.NonConfig = true
+				o.NonConfig = false
+				defer func() { o.NonConfig = true }()
+			}
 			if o.MultiKeys && r.Chance(30) {
 				l.NKeys = 2
 			}
@@ -106,13 +129,31 @@ func Yang(kids []*SNode, indent string) string {
 			}
 			b.WriteString(" }\n")
 		case "cont":
-			fmt.Fprintf(&b, "%scontainer %s {\n%s%s}\n", indent, s.Name, Yang(s.Kids, indent+"  "), indent)
+			cfg := ""
+			if s.NonConfig {
+				cfg = " config false;"
+			}
+			fmt.Fprintf(&b, "%scontainer %s {%s\n%s%s}\n", indent, s.Name, cfg, Yang(s.Kids, indent+"  "), indent)
+		case "choice":
+			fmt.Fprintf(&b, "%schoice %s {\n", indent, s.Name)
+			for _, c := range s.Cases {
+				if c.Shorthand {
+					b.WriteString(Yang(c.Kids, indent+"  "))
+				} else {
+					fmt.Fprintf(&b, "%s  case %s {\n%s%s  }\n", indent, c.Name, Yang(c.Kids, indent+"    "), indent)
+				}
+			}
+			fmt.Fprintf(&b, "%s}\n", indent)
 		case "list":
 			var ks []string
 			for i := 0; i < s.NKeys; i++ {
 				ks = append(ks, s.Kids[i].Name)
 			}
-			fmt.Fprintf(&b, "%slist %s { key \"%s\";\n%s%s}\n", indent, s.Name, strings.Join(ks, " "), Yang(s.Kids, indent+"  "), indent)
+			cfg := ""
+			if s.NonConfig {
+				cfg = " config false;"
+			}
+			fmt.Fprintf(&b, "%slist %s { key \"%s\";%s\n%s%s}\n", indent, s.Name, strings.Join(ks, " "), cfg, Yang(s.Kids, indent+"  "), indent)
 		}
 	}
 	return b.String()
@@ -193,8 +234,13 @@ func GenData(r *core.Rng, s *SNode, density int, o Opts) *DNode {
 // EmptyBody is a body with nothing set.
 func EmptyBody(kids []*SNode) []*DNode {
 	out := make([]*DNode, len(kids))
-	for i := range kids {
+	for i, s := range kids {
 		out[i] = &DNode{}
+		if s.Kind == "choice" {
+			for _, c := range s.Cases {
+				out[i].Cases = append(out[i].Cases, EmptyBody(c.Kids))
+			}
+		}
 	}
 	return out
 }
@@ -373,6 +419,16 @@ func canonBody(b *strings.Builder, kids []*SNode, body []*DNode, un bool) {
 				canonBody(b, s.Kids, d.Kids, un)
 				b.WriteString(" ")
 			}
+		case "choice":
+			for ci, cs := range s.Cases {
+				if ci < len(d.Cases) {
+					var inner strings.Builder
+					canonBody(&inner, cs.Kids, d.Cases[ci], un)
+					if t := inner.String(); t != "{}" {
+						b.WriteString(strings.TrimSuffix(strings.TrimPrefix(t, "{"), "}"))
+					}
+				}
+			}
 		case "list":
 			if len(d.Rows) > 0 {
 				rows := append([]*DRow{}, d.Rows...)
@@ -416,6 +472,9 @@ func cloneD(d *DNode) *DNode {
 	}
 	for _, r := range d.Rows {
 		c.Rows = append(c.Rows, &DRow{Key: append([]string{}, r.Key...), Kids: Clone(r.Kids)})
+	}
+	for _, cs := range d.Cases {
+		c.Cases = append(c.Cases, Clone(cs))
 	}
 	return c
 }
@@ -484,6 +543,12 @@ func ToMap(kids []*SNode, body []*DNode) map[string]interface{} {
 			if d.Present {
 				m[s.Name] = ToMap(s.Kids, d.Kids)
 			}
+		case "choice":
+			for ci, cs := range s.Cases {
+				for k, v := range ToMap(cs.Kids, d.Cases[ci]) {
+					m[k] = v
+				}
+			}
 		case "list":
 			if len(d.Rows) > 0 {
 				var l []interface{}
@@ -513,6 +578,12 @@ func FromMap(kids []*SNode, in interface{}, unordered *bool) []*DNode {
 	}
 	out := EmptyBody(kids)
 	for i, s := range kids {
+		if s.Kind == "choice" {
+			for ci, cs := range s.Cases {
+				out[i].Cases[ci] = FromMap(cs.Kids, in, unordered)
+			}
+			continue
+		}
 		v, ok := get(s.Name)
 		if !ok || v == nil {
 			continue
@@ -536,6 +607,9 @@ func FromMap(kids []*SNode, in interface{}, unordered *bool) []*DNode {
 			default:
 				// a Go map keyed by the list key
 				*unordered = true
+				if s.NKeys > 1 {
+					CompoundInMap++
+				}
 				items = mapValues(v)
 			}
 			for _, it := range items {
@@ -554,6 +628,10 @@ func FromMap(kids []*SNode, in interface{}, unordered *bool) []*DNode {
 	}
 	return out
 }
+
+// CompoundInMap counts lists with several key leaves that FromMap found held in a Go map
+// (reset by the caller before a read-back).
+var CompoundInMap int
 
 func mapValues(v interface{}) []interface{} {
 	var out []interface{}
@@ -583,4 +661,157 @@ type Loc struct {
 	Path []string // url segments
 	Kids []*SNode
 	Body []*DNode
+}
+
+// ---------------------------------------------------------------- choices (C09)
+
+// GenChoiceSchema generates leaves, containers and choices (nested in cases, shorthand cases).
+func GenChoiceSchema(r *core.Rng, depth int, n int) []*SNode {
+	var out []*SNode
+	for i := 0; i < n; i++ {
+		nameSeq++
+		k := r.Intn(10)
+		switch {
+		case k < 4 || depth >= 3:
+			out = append(out, genLeaf(r, Opts{Defaults: true}, fmt.Sprintf("f%d", nameSeq)))
+		case k < 6:
+			out = append(out, &SNode{Name: fmt.Sprintf("c%d", nameSeq), Kind: "cont", Kids: GenChoiceSchema(r, depth+1, 1+r.Intn(3))})
+		default:
+			ch := &SNode{Name: fmt.Sprintf("x%d", nameSeq), Kind: "choice"}
+			nc := 2 + r.Intn(2)
+			for ci := 0; ci < nc; ci++ {
+				nameSeq++
+				// names are built so that sorting the case idents keeps this order
+				cname := fmt.Sprintf("%c%d", 'a'+ci, nameSeq)
+				if r.Chance(30) {
+					lf := genLeaf(r, Opts{}, cname)
+					ch.Cases = append(ch.Cases, &SCase{Name: cname, Kids: []*SNode{lf}, Shorthand: true})
+				} else {
+					ch.Cases = append(ch.Cases, &SCase{Name: cname, Kids: GenChoiceSchema(r, depth+1, 1+r.Intn(3))})
+				}
+			}
+			out = append(out, ch)
+		}
+	}
+	return out
+}
+
+func ResetNames() { nameSeq = 0 }
+
+// GenChoiceBody generates data; at each choice at most one case gets data unless violate is set.
+func GenChoiceBody(r *core.Rng, kids []*SNode, density int) []*DNode {
+	out := EmptyBody(kids)
+	for i, s := range kids {
+		switch s.Kind {
+		case "leaf":
+			if r.Chance(density) {
+				v := genLeafVal(r, s)
+				out[i].Leaf = &v
+			}
+		case "cont":
+			if r.Chance(density) {
+				out[i].Present = true
+				out[i].Kids = GenChoiceBody(r, s.Kids, density)
+			}
+		case "choice":
+			if r.Chance(density + 20) {
+				ci := r.Intn(len(s.Cases))
+				out[i].Cases[ci] = GenChoiceBody(r, s.Cases[ci].Kids, density+30)
+			}
+		}
+	}
+	return out
+}
+
+func ChoiceSchemaTokens(kids []*SNode) []string {
+	out := []string{fmt.Sprint(len(kids))}
+	for _, s := range kids {
+		switch s.Kind {
+		case "leaf":
+			if s.Default != nil {
+				out = append(out, "L", hexTok(*s.Default))
+			} else {
+				out = append(out, "L", "~")
+			}
+		case "cont":
+			out = append(out, "C")
+			out = append(out, ChoiceSchemaTokens(s.Kids)...)
+		case "choice":
+			out = append(out, "X", fmt.Sprint(len(s.Cases)))
+			for _, c := range s.Cases {
+				out = append(out, ChoiceSchemaTokens(c.Kids)...)
+			}
+		}
+	}
+	return out
+}
+
+func ChoiceBodyTokens(kids []*SNode, body []*DNode) []string {
+	out := []string{fmt.Sprint(len(body))}
+	for i, d := range body {
+		s := kids[i]
+		switch s.Kind {
+		case "leaf":
+			if d.Leaf == nil {
+				out = append(out, "l", "~")
+			} else {
+				out = append(out, "l", hexTok(*d.Leaf))
+			}
+		case "cont":
+			if !d.Present {
+				out = append(out, "c0")
+			} else {
+				out = append(out, "c1")
+				out = append(out, ChoiceBodyTokens(s.Kids, d.Kids)...)
+			}
+		case "choice":
+			out = append(out, "x", fmt.Sprint(len(s.Cases)))
+			for ci, c := range s.Cases {
+				out = append(out, ChoiceBodyTokens(c.Kids, d.Cases[ci])...)
+			}
+		}
+	}
+	return out
+}
+
+// ParseChoiceBody decodes the Choice model's output.
+func ParseChoiceBody(kids []*SNode, toks []string) ([]*DNode, error) {
+	t := &tokReader{toks: toks}
+	b := t.cbody(kids)
+	if t.err == nil && t.pos != len(toks) {
+		t.err = fmt.Errorf("trailing tokens")
+	}
+	return b, t.err
+}
+
+func (t *tokReader) cbody(kids []*SNode) []*DNode {
+	n := t.num()
+	if n != len(kids) {
+		t.err = fmt.Errorf("body length %d for %d schema children", n, len(kids))
+		return nil
+	}
+	out := make([]*DNode, n)
+	for i := 0; i < n && t.err == nil; i++ {
+		s := kids[i]
+		d := &DNode{}
+		switch tag := t.next(); tag {
+		case "l":
+			d.Leaf = unhexTok(t.next())
+		case "c0":
+		case "c1":
+			d.Present = true
+			d.Kids = t.cbody(s.Kids)
+		case "x":
+			nc := t.num()
+			for ci := 0; ci < nc && t.err == nil; ci++ {
+				if ci < len(s.Cases) {
+					d.Cases = append(d.Cases, t.cbody(s.Cases[ci].Kids))
+				}
+			}
+		default:
+			t.err = fmt.Errorf("bad tag %q", tag)
+		}
+		out[i] = d
+	}
+	return out
 }
